@@ -26,8 +26,8 @@ def run(ck):
     ck.trusted += ["harness/c04.py; the transformation matrix S of each context is read from Manager.basis_transformations after entering and "
                    "handed to the model (eigh contract S^T S = 1, S^-1 A S diagonal ascending is re-checked numerically)",
                    "hand model QV/Model/C04.lean validated on generated programs only; model inverts S exactly in rationals, the code with numpy.linalg.inv",
-                   "4-index tensors / superoperators are not in the executable model (oracle only)"]
-    ck.prove(PROPS, extra_modules=["QV.Drive.C04"], also=["QV.Props.C04Labels"])
+                   "4-index tensors / superoperators are not in the executable C04 model; their there-and-back transformation is the theorem transform_back (QV/Props/C04Tensor.lean) on the two passes of RelaxationTensor.transform as transcribed in QV/Model/C01.lean (tied to the code by the C01 driver); the tensor stream here is the oracle for it"]
+    ck.prove(PROPS, extra_modules=["QV.Drive.C04"], also=["QV.Props.C04Labels", "QV.Props.C04Tensor"])
     lines, impl, kinds = [], [], []
 
     def emit(l, o, k="exact"):
